@@ -243,6 +243,29 @@ func structValueToMap(rv reflect.Value, depth int) map[string]any {
 	return result
 }
 
+// StringKeyedMap copies a map whose keys are of a string kind (map[string]string, map[string]int,
+// a map keyed by a defined string type, ...) into a map[string]any; ok is false for any other value.
+func StringKeyedMap(data any) (m map[string]any, ok bool) {
+	if data == nil {
+		return nil, false
+	}
+	rv := reflect.ValueOf(data)
+	for rv.Kind() == reflect.Ptr {
+		if rv.IsNil() {
+			return nil, false
+		}
+		rv = rv.Elem()
+	}
+	if rv.Kind() != reflect.Map || rv.Type().Key().Kind() != reflect.String {
+		return nil, false
+	}
+	m = make(map[string]any, rv.Len())
+	for iter := rv.MapRange(); iter.Next(); {
+		m[iter.Key().String()] = iter.Value().Interface()
+	}
+	return m, true
+}
+
 // embeddedStruct returns the struct value of an embedded (anonymous) field, through a non-nil pointer.
 func embeddedStruct(f reflect.StructField, fv reflect.Value) (reflect.Value, bool) {
 	if !f.Anonymous {
